@@ -1077,6 +1077,120 @@ func checkValueNotifier(r *Reporter, p *Prog) {
 				}
 			}
 		}
+		// A Wait that gives up (context done) leaves the entry of the value - and the channel of that entry
+		// is shared with the other listeners: a later Notify for them closes it. The listener must
+		// therefore be FLAGGED deregistered on every way out that is not a success, or a later Wait on it
+		// reports the others' notification as its own. Every non-success return is reached only through a
+		// point at which the flag is known set (the flag was read true, the deregistration signal was
+		// received, a call that sets the flag) or runs a deferred call that sets it.
+		{
+			var setsFlagBody func(body ast.Node, depth int) bool
+			setsFlagBody = func(body ast.Node, depth int) bool {
+				hit := false
+				ast.Inspect(body, func(n ast.Node) bool {
+					c, ok := n.(*ast.CallExpr)
+					if !ok || hit {
+						return !hit
+					}
+					if se, isSel := ast.Unparen(c.Fun).(*ast.SelectorExpr); isSel {
+						if (se.Sel.Name == "Swap" || se.Sel.Name == "Store") && len(c.Args) == 1 && rawKey(c.Args[0]) == "true" && strings.HasSuffix(typeName(info.TypeOf(se.X)), "atomic.Bool") {
+							hit = true
+							return false
+						}
+						if fn, _ := info.Uses[se.Sel].(*types.Func); fn != nil && depth > 0 {
+							if cd := p.decls().byFunc[fn.Origin()]; cd != nil && cd.Body != nil && p.decls().infoOf[cd] == info && recvTypeName(cd) == "Listener" && setsFlagBody(cd.Body, depth-1) {
+								hit = true
+								return false
+							}
+						}
+					}
+					return true
+				})
+				return hit
+			}
+			setsFlag := func(n ast.Node) bool {
+				c, ok := n.(*ast.CallExpr)
+				return ok && setsFlagBody(c, 2)
+			}
+			// a deferred setter at the top level of Wait covers every return after it
+			var deferredSetter *ast.DeferStmt
+			for _, st := range fd.Body.List {
+				if ds, ok := st.(*ast.DeferStmt); ok && setsFlagBody(ds.Call, 2) && deferredSetter == nil {
+					deferredSetter = ds
+				}
+			}
+			isDeregRecv := func(n ast.Node) bool {
+				u, ok := n.(*ast.UnaryExpr)
+				if !ok || u.Op != token.ARROW {
+					return false
+				}
+				se, ok := ast.Unparen(u.X).(*ast.SelectorExpr)
+				if !ok || !selves[objOfIdent(info, se.X)] {
+					return false
+				}
+				sel := info.Selections[se]
+				return sel != nil && sel.Kind() == types.FieldVal && deregSignal[sel.Obj()]
+			}
+			signalled := f.AfterComm(isDeregRecv)
+			flagTrue, _ := f.CondEdges(func(e ast.Expr) bool {
+				c, ok := ast.Unparen(e).(*ast.CallExpr)
+				if !ok {
+					return false
+				}
+				se, ok := ast.Unparen(c.Fun).(*ast.SelectorExpr)
+				return ok && se.Sel.Name == "Load" && strings.HasSuffix(typeName(info.TypeOf(se.X)), "atomic.Bool")
+			})
+			nFail, unflagged := 0, ""
+			var uw []string
+			for _, rpt := range f.FindOwn(func(n ast.Node) bool { _, ok := n.(*ast.ReturnStmt); return ok }) {
+				rs, ok := f.nodeAt(rpt).(*ast.ReturnStmt)
+				if !ok || len(rs.Results) != 1 || isNil(info, rs.Results[0]) {
+					continue
+				}
+				nFail++
+				if deferredSetter != nil && deferredSetter.Pos() < rs.Pos() {
+					continue
+				}
+				thisRet := rs
+				w, found := f.reach(f.entry(), &searchOpts{AvoidNode: func(n ast.Node) bool {
+					if setsFlag(n) {
+						return true
+					}
+					for _, sp := range signalled {
+						if sp.I > 0 && sp.B.Nodes[sp.I-1] == n {
+							return true
+						}
+					}
+					return false
+				}, AvoidEdge: func(e Edge) bool {
+					for _, fe := range flagTrue {
+						if fe == e {
+							return true
+						}
+					}
+					for _, sp := range signalled {
+						if sp.I == 0 && e.From.Succs[e.Succ] == sp.B {
+							return true
+						}
+					}
+					return false
+				}, AvoidRet: func(r2 *ast.ReturnStmt, val func(ast.Expr) int8) bool {
+					// a result variable that is known nil on the path is a success return, judged above
+					return r2 == thisRet && val(r2.Results[0]) == -1
+				}}, func(pt Point, atExit bool) bool { return !atExit && f.At(pt, rpt) })
+				if found {
+					unflagged, uw = f.PosOf(rpt)+": Wait gives up without the listener being flagged deregistered: its entry's channel is shared, a later Notify for the remaining listeners closes it and the next Wait on this listener reports success for a notification it was deregistered before", w
+				}
+			}
+			switch {
+			case nFail == 0:
+				r.Fail("notifier/giving-up-flags-listener", key, p.posStr(fd.Pos()), "Wait has no failure return (vacuous)")
+			case unflagged != "":
+				r.Fail("notifier/giving-up-flags-listener", key, p.posStr(fd.Pos()), unflagged, uw...)
+			default:
+				r.Pass("notifier/giving-up-flags-listener", key, p.posStr(fd.Pos()), fmt.Sprintf("%d failure return(s), each with the deregistration flag known set", nFail))
+			}
+		}
 		switch {
 		case len(deregSignal) == 0 || len(notified) == 0:
 			r.Fail("notifier/wait-success-only-on-notify", key, p.posStr(fd.Pos()), fmt.Sprintf("expected a receive from the notification channel in Wait and a deregistration signal closed by Deregister (found %d / %d) (vacuous)", len(notified), len(deregSignal)))
@@ -1114,9 +1228,20 @@ func checkValueNotifier(r *Reporter, p *Prog) {
 			if !ok {
 				return false
 			}
-			// the deregistration callback: a field of function type of the handle
+			// the deregistration callback: a field of function type of the handle - called directly, or
+			// handed to a sync.Once of the handle (`l.releaseOnce.Do(l.deregister)`)
 			se, isSel := ast.Unparen(c.Fun).(*ast.SelectorExpr)
 			if !isSel {
+				return false
+			}
+			if se.Sel.Name == "Do" && len(c.Args) == 1 && strings.HasSuffix(typeName(info.TypeOf(se.X)), "sync.Once") {
+				if as, ok := ast.Unparen(c.Args[0]).(*ast.SelectorExpr); ok {
+					if asel := info.Selections[as]; asel != nil && asel.Kind() == types.FieldVal {
+						if _, isSig := asel.Obj().Type().Underlying().(*types.Signature); isSig {
+							return true
+						}
+					}
+				}
 				return false
 			}
 			sel := info.Selections[se]
